@@ -29,6 +29,15 @@ CHEAT = "skepticoin/cheating.py"
 GEN = "skepticoin/genesis.py"
 
 
+def MP(id: str, prop: str, expect: Any, patch: str, *edits: Any) -> None:
+    """a defect seeded INSIDE a construct that only exists after a followed refactoring / feature patch was applied (path relative to
+    /verif): the canonicalisations that make the patch silent must not hide the defect"""
+    es = []
+    for i in range(0, len(edits), 3):
+        es.append((edits[i], edits[i + 1], edits[i + 2]))
+    MUTANTS.append({"id": id, "prop": prop, "expect": expect, "edits": es, "patch": patch})
+
+
 def M(id: str, prop: str, expect: Any, *edits: Any) -> None:
     es = []
     for i in range(0, len(edits), 3):
@@ -591,3 +600,20 @@ M("c13-validator-raises-base-class", "C13", "R13.7", CONS, "            raise Va
 M("c12-worker-hashes-wrong-height", "C12", "R12.5", "skepticoin/mining.py", "                summary_hash = construct_summary_hash(summary, current_height)", "                summary_hash = construct_summary_hash(summary, current_height - 1)")
 M("c12-nonce-stuck", "C12", "R12.5", "skepticoin/mining.py", "                nonce = (nonce + 1) % (1 << 32)", "                nonce = nonce % (1 << 32)")
 M("c19-greeting-foreign-nonce", "C19", "R19.9", RP, "                [SupportedVersion(0)], ipv4_mapped, port_if_known, my_ip_address, my_port, self.local_peer.nonce,", "                [SupportedVersion(0)], ipv4_mapped, port_if_known, my_ip_address, my_port, random.randrange(pow(2, 32)),")
+
+
+# ----------------------------------------------------------------------------------------------- defects inside canonicalised constructs
+MP("x-helper-object-drops-per-value-check", "C02", "R02.4", "refactors_beyond/ri1-3", CONS,
+   "    def add(self, value: int) -> None:\n        validate_sashimi_range(value)\n        self.total += value\n",
+   "    def add(self, value: int) -> None:\n        self.total += value\n")
+MP("x-helper-object-total-not-checked", "C02", "R02.4", "refactors_beyond/ri1-3", CONS,
+   "    def validate(self) -> None:\n        validate_sashimi_range(self.total)\n", "    def validate(self) -> None:\n        pass\n")
+MP("x-insert-batch-swaps-locator-columns", "C08", ["R08.1", "R08.3"], "refactors/ri4-1", BS,
+   "        self.transaction_locator.append((transaction_hash, block_hash))", "        self.transaction_locator.append((block_hash, transaction_hash))")
+MP("x-fused-generator-drops-backoff-test", "C19", "R19.3", "refactors/ri3-1", MGR,
+   "            if (disconnected_peer.direction == OUTGOING and\n                self._peer_address(disconnected_peer) not in self.my_addresses and\n                    disconnected_peer.is_time_to_connect(current_time)):",
+   "            if (disconnected_peer.direction == OUTGOING and\n                self._peer_address(disconnected_peer) not in self.my_addresses):")
+MP("x-memo-hash-of-reversed-children", "C17", "R17.3", "features/fg1-2", "skepticoin/merkletree.py",
+   "            self._hash = sha256d(b''.join(c.hash() for c in self._children))", "            self._hash = sha256d(b''.join(c.hash() for c in reversed(self._children)))")
+MP("x-takewhile-predicate-ignores-stop", "C20", "R20.8", "refactors/ri3-4", "skepticoin/networking/local_peer.py",
+   "        return self.running\n", "        return True\n")
